@@ -313,6 +313,7 @@ def run(pid, args, seed, work, t0):
     ctx.generated = gen_json
     literals = mined_literals()
     ctx.literals = literals
+    gen.MINED_STRINGS[:] = mined_strings()
     # which modelled functions differ (up to renaming / comments) from the tree the model was written for
     changed_fns = changed_functions(pid, gen_json)
     ctx.byte_literals = mined_byte_literals()
@@ -505,6 +506,29 @@ def run(pid, args, seed, work, t0):
 def first_error(log):
     m = re.search(r'error:.*', log, re.S)
     return (m.group(0) if m else log)[:1500]
+
+
+def mined_strings():
+    """short string literals (not docstrings, not log / error messages with spaces beyond a few words) of the
+    current pamqp source: keys, type names, product names ... the code may treat specially"""
+    import ast
+    out = set()
+    repo = os.environ.get('PAMQP_REPO', '/repo')
+    for fn in ('encode.py', 'decode.py', 'base.py', 'frame.py', 'header.py', 'common.py', 'body.py', 'heartbeat.py'):
+        try:
+            tree = ast.parse(open(os.path.join(repo, 'pamqp', fn), encoding='utf-8').read())
+        except Exception:  # noqa
+            continue
+        docs = set()
+        for n in ast.walk(tree):
+            if isinstance(n, (ast.Module, ast.ClassDef, ast.FunctionDef, ast.AsyncFunctionDef)) and n.body and \
+                    isinstance(n.body[0], ast.Expr) and isinstance(n.body[0].value, ast.Constant):
+                docs.add(id(n.body[0].value))
+        for n in ast.walk(tree):
+            if isinstance(n, ast.Constant) and isinstance(n.value, str) and id(n) not in docs and 0 < len(n.value) <= 48 \
+                    and n.value.count(' ') <= 2 and '\n' not in n.value:
+                out.add(n.value)
+    return sorted(out)
 
 
 def mined_literals():
